@@ -73,7 +73,17 @@ def run(r):
                     found_input=False, name="C14-obligation.json")
     rnd = random.Random(r.seed * 1409 + 14)
     n = 150 if r.tier == "quick" else 1500
-    vals = [gen_value(rnd) for _ in range(n)]
+    # always there, whatever the seed: every boundary of the integer encodings (15-bit digits, 31/32/63/64-bit words), the floats and
+    # complex numbers with signed zeros and infinities in either part, each text class - alone and inside a tuple
+    import struct
+    fb = lambda x: struct.unpack("<Q", struct.pack("<d", x))[0]
+    fixed = [["int", str(k)] for e in (15, 30, 31, 32, 45, 62, 63, 64, 65, 127, 128) for k in (2 ** e - 1, 2 ** e, 2 ** e + 1, -(2 ** e) - 1, -(2 ** e), -(2 ** e) + 1)]
+    fixed += [["float", fb(x)] for x in (0.0, -0.0, float("inf"), float("-inf"), 5e-324, 1.7976931348623157e308, 0.1)]
+    fixed += [["complex", fb(a), fb(b)] for a, b in ((1.0, float("inf")), (float("inf"), 1.0), (-0.0, 1.0), (1.0, -0.0), (-0.0, -0.0), (float("-inf"), float("inf")), (0.5, -2.0))]
+    fixed += [["stop"], ["ell"], ["text", list("\ud800".encode("utf-8", "surrogatepass"))], ["text", list("h\xe9 \u4e2d \U0001F600".encode("utf-8"))], ["bin", list(range(256))]]
+    fixed += [["tuple", fixed[i: i + 6]] for i in range(0, len(fixed), 6)]
+    fixed += [["list", [["stop"], ["ell"], ["none"]]], ["dict", [[["stop"], ["ell"]], [["none"], ["stop"]]]], ["frozenset", [["stop"]]], ["set", [["ell"]]]]
+    vals = fixed + [gen_value(rnd) for _ in range(n)]
     hosts = [C.HOST_DEFAULT] if r.tier == "quick" else [C.HOST_DEFAULT] + [C.HOSTS[h] for h in ("3.8", "3.9", "3.10", "3.11", "3.13")]
     try:
         for host in hosts:
